@@ -87,6 +87,7 @@ def check_value(v, acc, seen):
     nontrivial = delim != "no-enclosing"
     acc.case(sample=lambda: {"value": v, "expected_strip": [content_, delim]}, nontrivial_key=v if nontrivial else None)
     case = {"value": v}
+    acc.outcome((delim, content_ == "", len(v) > 2))
     for kind in ("field", "string"):
         for inplace in (True, False):
             acc.trace()
